@@ -112,7 +112,7 @@ TasksIn(v) ==
 (* as one dependency (get_direct_dependencies collects into an ordered set); the first one found is kept.                 *)
 RECURSIVE Canon(_)
 Canon(v) == IF Kind(v) \in {"bool", "int", "float"}
-            THEN N("num", IF Atom(v) \in {"True", "1", "1.0"} THEN "1" ELSE IF Atom(v) \in {"False", "0", "0.0"} THEN "0" ELSE Atom(v), <<>>)
+            THEN N("num", IF Atom(v) \in {"True", "1", "1.0"} THEN "1" ELSE IF Atom(v) \in {"False", "0", "0.0", "-0.0"} THEN "0" ELSE Atom(v), <<>>)
             ELSE IF v = N("enum", "me.E3.ONE", <<>>) THEN N("num", "1", <<>>)        \* an IntEnum member equals its int value,
             ELSE IF v = N("enum", "me.E4.A", <<>>) THEN N("str", "a", <<>>)           \* a str-mixin member its str value
             ELSE N(Kind(v), Atom(v), [i \in DOMAIN Kids(v) |-> Canon(Kids(v)[i])])
@@ -139,7 +139,7 @@ Key(t) == Ser(t)              \* sha1 and json.dumps are trusted to be injective
 -----------------------------------------------------------------------------
 (* ---- the bounded grammar ---- *)
 Atoms == { N("none", "None", <<>>), N("str", "a", <<>>), N("str", "", <<>>), N("str", "1", <<>>),
-           N("bool", "True", <<>>), N("int", "1", <<>>), N("float", "1.0", <<>>), N("int", "0", <<>>),
+           N("bool", "True", <<>>), N("int", "1", <<>>), N("float", "1.0", <<>>), N("int", "0", <<>>), N("float", "-0.0", <<>>),
            N("enum", "me.E1.A", <<>>), N("enum", "me.E1.B", <<>>), N("enum", "me.E2.A", <<>>),
            N("enum", "me.E3.ONE", <<>>), N("enum", "me.E4.A", <<>>) }       \* members of scalar-mixin enums (IntEnum, str + Enum)
 SmallAtoms == { N("str", "a", <<>>), N("int", "1", <<>>), N("bool", "True", <<>>), N("enum", "me.E1.A", <<>>) }
